@@ -151,8 +151,11 @@ class Gf180Walker(h.HierarchyWalker):
         if len(subset) >= 2:
             msg = f"Mos module choice not well-defined given parameters {args}"
             raise RuntimeError(msg)
+        if not subset:
+            msg = f"No Mos module for parameters {args}"
+            raise RuntimeError(msg)
 
-        # Return the first one (supported as of 3.7)
+        # Return the only one
         return next(iter(subset.values()))
 
     def mos_module_call(self, params: MosParams) -> h.ExternalModuleCall:
